@@ -93,9 +93,11 @@ func runDFSV(c *Ctx) {
 		c.R.Undecided("DFSV", "params", hn, p.Pos(helper.Pos()), "helper parameters (callback, visited map, vertex) not recognised")
 		return
 	}
+	// values are compared after binding the parameters of the walker's private steps (a `discovered(w)` predicate, a
+	// `descend(w)` step that builds the next function) to what the walker hands them
 	isParam := func(v ssa.Value, prm *ssa.Parameter) bool {
 		for _, s := range core.Sources(v) {
-			if s != prm {
+			if s != prm && p.Bind(core.Strip(s)) != ssa.Value(prm) {
 				return false
 			}
 		}
@@ -214,14 +216,14 @@ func runDFSV(c *Ctx) {
 	})
 	isW := func(v ssa.Value) bool {
 		for _, s := range core.Sources(v) {
-			if s != wKey {
+			if s != wKey && p.Bind(core.Strip(s)) != wKey {
 				return false
 			}
 		}
 		return wKey != nil
 	}
 	guarded := false
-	for _, l := range core.Lits(core.Guards(cbCall.Block())) {
+	for _, l := range p.ExpandLits(core.Lits(core.Guards(cbCall.Block()))) {
 		if lk, in, ok := core.MemberLit(l); ok && !in {
 			if isSlot(lk.X, pVis) && isW(lk.Index) {
 				guarded = true
@@ -250,7 +252,18 @@ func runDFSV(c *Ctx) {
 	}
 	closureOK := false
 	if len(a) == 2 {
-		if mc, ok := a[1].(*ssa.MakeClosure); ok {
+		// the next function: a literal made here, or the one literal a private step returns
+		var mc *ssa.MakeClosure
+		for _, sv := range p.ISources(a[1]) {
+			if m, ok := sv.(*ssa.MakeClosure); ok {
+				if mc != nil && mc != m {
+					mc = nil
+					break
+				}
+				mc = m
+			}
+		}
+		if mc != nil {
 			fn := mc.Fn.(*ssa.Function)
 			c.R.Func(core.FuncName(fn))
 			for _, call := range core.Calls(fn) {
@@ -346,7 +359,13 @@ func runKahn(c *Ctx, gf *graphFields) {
 	if cp == nil {
 		return
 	}
-	onCopy := func(base ssa.Value) bool { return core.Strip(base) == ssa.Value(cp) }
+	onCopy := func(base ssa.Value) bool {
+		b := core.Strip(base)
+		if prm, isPrm := b.(*ssa.Parameter); isPrm {
+			b = core.Strip(p.Bind(prm)) // a private step of KahnSort that is handed the copy
+		}
+		return b == ssa.Value(cp)
+	}
 
 	// K2: the normal return is dominated by the leftover-edge scan whose positive branch panics
 	var pan *ssa.Panic
@@ -371,6 +390,68 @@ func runKahn(c *Ctx, gf *graphFields) {
 						}
 					}
 				}
+			}
+		}
+	}
+	// predicate form: `if g.hasEdges() { panic(…) }` with hasEdges ranging over the out-adjacency of what it is handed
+	// and answering true exactly when some edge set is non-empty
+	if pan != nil && !scanOK {
+		for _, l := range core.Lits(core.Guards(pan.Block())) {
+			if l.Kind != "call" || !l.Pol || len(l.Args) != 1 || !onCopy(l.Args[0]) {
+				continue
+			}
+			cl, ok := l.Of.(*ssa.Call)
+			if !ok {
+				continue
+			}
+			h := cl.Common().StaticCallee()
+			if h == nil || !p.PrivateHelper(h) {
+				continue
+			}
+			nTrue, okP := 0, true
+			var loopHdr *ssa.BasicBlock
+			for _, r := range core.Returns(h) {
+				if len(r.Results) != 1 {
+					okP = false
+					continue
+				}
+				v, isK := core.ConstBool(r.Results[0])
+				if !isK {
+					okP = false
+					continue
+				}
+				if v {
+					nTrue++
+					found := false
+					for _, hl := range core.Lits(core.Guards(r.Block())) {
+						if hl.Kind == "cmp" && ((hl.Pol && hl.Op == token.GTR) || (!hl.Pol && (hl.Op == token.EQL || hl.Op == token.LEQ))) {
+							if k, ok := core.ConstInt(hl.Y); ok && k == 0 {
+								if lc, ok := hl.X.(*ssa.Call); ok && core.CalleeName(lc.Common()) == "builtin.len" {
+									rr := c.classifyMap(gf, lc.Common().Args[0])
+									if rr.level == "inner" && rr.field == "out" && core.Strip(rr.base) == ssa.Value(h.Params[0]) {
+										if n, ok := extractNext(lc.Common().Args[0]); ok {
+											found = true
+											loopHdr = n.Block()
+										}
+									}
+								}
+							}
+						}
+					}
+					if !found {
+						okP = false
+					}
+				}
+			}
+			// the negative answer is given only after the scan ran to its end
+			for _, r := range core.Returns(h) {
+				if v, isK := core.ConstBool(r.Results[0]); isK && !v && loopHdr != nil && core.Reachable(r.Block(), loopHdr, nil) {
+					okP = false
+				}
+			}
+			if okP && nTrue > 0 {
+				scanOK = true
+				scanHeader = cl.Block()
 			}
 		}
 	}
@@ -451,8 +532,8 @@ func runKahn(c *Ctx, gf *graphFields) {
 			}
 		})
 	}
-	// initial work list: keys of the in-adjacency with no entries
-	core.Instrs(ks, func(in ssa.Instruction) {
+	// initial work list: keys of the in-adjacency with no entries (collected here or by a private step)
+	p.RegionInstrs(ks, func(in ssa.Instruction) {
 		call, ok := in.(*ssa.Call)
 		if !ok {
 			return
